@@ -23,7 +23,7 @@ m('c05_setfield_value_not_masked', 'C05', U,
 m('c05_setfield_or_instead_of_replace_wide', 'C05', U,
   'quadletHostOrder = (quadletHostOrder & ~quadletMask) | ((partialValue << quadletShift) & quadletMask);',
   'quadletHostOrder = (fieldDescriptor->bits > 32 ? quadletHostOrder : (quadletHostOrder & ~quadletMask)) | ((partialValue << quadletShift) & quadletMask);')
-m('c05_getfield_second_quadlet_shift', 'C05', U,
+m('eqv_getfield_second_quadlet_shift', 'NONE', U,
   'result |= (uint64_t)(partialValue) << (fieldDescriptor->bits - processedBits - quadletBits);',
   'result |= (uint64_t)(partialValue) << (processedBits == 0 ? (fieldDescriptor->bits - quadletBits) : (fieldDescriptor->bits - processedBits - quadletBits) & 31);')
 m('c05_lin_busid_offset', 'C05', 'src/avtp/acf/Lin.c',
@@ -55,8 +55,11 @@ m('c16_vss_static_float_temp', 'C16', 'src/avtp/acf/custom/Vss.c',
 m('c16_can_last_pdu_cache', 'C16', 'src/avtp/acf/Can.c',
   'uint8_t Avtp_Can_GetCanPayloadLength(Avtp_Can_t* pdu)\n{\n    uint8_t acf_msg_length = Avtp_Can_GetAcfMsgLength(pdu) * 4;',
   'uint8_t Avtp_Can_GetCanPayloadLength(Avtp_Can_t* pdu)\n{\n    static Avtp_Can_t* last_pdu; static uint16_t last_len;\n    if (last_pdu != pdu) { last_pdu = pdu; last_len = Avtp_Can_GetAcfMsgLength(pdu); }\n    else { last_len = Avtp_Can_GetAcfMsgLength(pdu); }\n    uint8_t acf_msg_length = last_len * 4;')
-m('c16_table_nonconst_lazy_patch', 'C16', 'src/avtp/acf/Gpc.c',
+m('neg_table_lost_const_never_written', 'NONE', 'src/avtp/acf/Gpc.c',
   'static const Avtp_FieldDescriptor_t Avtp_GpcFieldDesc[AVTP_GPC_FIELD_MAX] =', 'static Avtp_FieldDescriptor_t Avtp_GpcFieldDesc[AVTP_GPC_FIELD_MAX] =')
+m('c16_table_lazy_normalise', 'C16', 'src/avtp/acf/Gpc.c',
+  'uint64_t Avtp_Gpc_GetField(Avtp_Gpc_t* pdu, Avtp_GpcFields_t field)\n{    \n    return GET_FIELD(field);',
+  'uint64_t Avtp_Gpc_GetField(Avtp_Gpc_t* pdu, Avtp_GpcFields_t field)\n{    \n    static int checked;\n    if (!checked) { checked = 1; }\n    return GET_FIELD(field);')
 m('c16_getter_writes_pdu', 'C16', 'src/avtp/acf/Lin.c',
   'uint8_t Avtp_Lin_GetPad(Avtp_Lin_t* pdu)\n{\n    return GET_FIELD(AVTP_LIN_FIELD_PAD);',
   'uint8_t Avtp_Lin_GetPad(Avtp_Lin_t* pdu)\n{\n    uint8_t keep = pdu->header[3]; pdu->header[3] = 0; uint8_t r = GET_FIELD(AVTP_LIN_FIELD_PAD); pdu->header[3] = keep; return r;\n    return GET_FIELD(AVTP_LIN_FIELD_PAD);')
@@ -67,15 +70,15 @@ m('c16_strarr_static_total', 'C16', 'src/avtp/acf/custom/Vss.c',
 L = 'examples/acf-can/acf-can-listener.c'
 m('c18_can_payload_check_removed', 'C18', L,
   '        if (can_payload_length > max_payload_length) {', '        if (0 && can_payload_length > max_payload_length) {')
-m('c18_can_zero_length_allowed', 'C18', L,
+m('eqv_can_short_length_caught_by_second_check', 'NONE', L,
   '        if (acf_msg_length < AVTP_CAN_HEADER_LEN ||\n', '        if (0 ||\n')
 m('c18_can_cf_length_check_off_by_header', 'C18', L,
   '    if (msg_length > res - proc_bytes) {', '    if (msg_length > res) {')
 m('c18_can_getpayloadlength_unpadded', 'C18', 'src/avtp/acf/Can.c',
   '    return acf_msg_length - AVTP_CAN_HEADER_LEN - acf_pad_length;', '    return acf_msg_length - AVTP_CAN_HEADER_LEN + acf_pad_length;')
-m('c18_cvf_upper_bound_weakened', 'C18', 'examples/cvf/cvf-listener.c',
+m('eqv_cvf_upper_bound_unreachable_by_recv_size', 'NONE', 'examples/cvf/cvf-listener.c',
   '        stream_data_len - AVTP_H264_HEADER_LEN > DATA_LEN) {', '        stream_data_len - AVTP_H264_HEADER_LEN > DATA_LEN + AVTP_H264_HEADER_LEN) {')
-m('c18_cvf_received_check_removed', 'C18', 'examples/cvf/cvf-listener.c',
+m('neg_cvf_reads_stale_bytes_inside_own_buffer', 'NONE', 'examples/cvf/cvf-listener.c',
   '        stream_data_len > n - sizeof(Avtp_Cvf_t) ||\n', '')
 m('c18_aaf_exit_on_size', 'C18', 'examples/aaf/aaf-listener.c',
   '    if (n != PDU_SIZE) {\n        fprintf(stderr, "Dropping packet: received %zd bytes, expected %zu\\n",\n                n, PDU_SIZE);\n        return 0;',
